@@ -157,7 +157,8 @@ def factorLoop (isZero : V → Bool) (inv : V → V) (S : Skyline V R) : Nat →
 
 /-- `factorize()` -/
 def factorize (isZero : V → Bool) (inv : V → V) (S : Skyline V R) : SkyOutcome (Skyline V R) :=
-  if isZero (S.D.getD 0 0) then .precondition
+  if S.n = 0 then .ok S                       -- `if (n == 0) return;` (fix of finding F42: `D[0]` does not exist)
+  else if isZero (S.D.getD 0 0) then .precondition
   else factorLoop isZero inv { S with D := S.D.setIfInBounds 0 (inv (S.D.getD 0 0)) } (S.n - 1)
 
 end factorize
